@@ -22,7 +22,7 @@ CHK_ASSUMED = "exact checkers: mpq_QSload_basis is a stub that fails arbitrarily
 
 def chk(fn, props, nr, ns, tier, timeout, vmax=2):
     bound = CHK_BOUND.replace("2 rows x 2 structural columns (+2 logicals)", "%d row(s) x %d structural column(s) (+%d logical(s))" % (nr, ns, nr)).replace("|v| <= 2", "|v| <= %d" % vmax).replace("|v| <= 4", "|v| <= %d" % (2 * vmax))
-    return Group("exact/%s_%dx%d%s" % (fn, nr, ns, "" if vmax == 2 else "_v%d" % vmax), "exact_checkers.c", tus=["exact.c", "lpdata_mpq.c", "allocrus.c"], model=MODEL,
+    return Group("exact/%s_%dx%d%s" % (fn, nr, ns, "" if vmax == 2 else "_v%d" % vmax), "exact_checkers.c", tus=["exact.c", "lpdata_mpq.c", "allocrus.c"], model=MODEL, mem_gb=4,
                  defines=["FN_" + fn, "NR=%d" % nr, "NS=%d" % ns, "VMAX=%d" % vmax] + EXACT, dfcc=False, unwind=2 * (nr + ns) + 2, kind="bounded", bound=bound,
                  timeout=timeout, tier=tier, must_fail=["reach_end", "reach_accept", "reach_reject"],
                  functions=["QSexact_optimal_test" if fn == "opttest" else "QSexact_infeasible_test"], props=props + ["C17"], assumed=[CHK_ASSUMED])
